@@ -142,4 +142,122 @@ theorem rootOf_build_inj (c : Cfg) (hf : c.fixedOff = true) (hvld : c.hashValid 
       subst hroot
       exact build_root_inj c hf hvld hlen hnz arr arr' hs hs' t t' root' hb hr hb' hr' (hup t hb) (hup' t' hb') hsepA hsepA'
 
+theorem vcPath_pos (n : Nat) : 1 ≤ vcPath n := by
+  unfold vcPath
+  split
+  · omega
+  · rename_i h
+    have : n - 1 ≠ 0 := by omega
+    simp only [bitLen, this, if_false]; omega
+
+/-- equal padded sizes ⇒ equal path lengths -/
+theorem vcPath_eq_of_padded (n n' : Nat) (h : vcPadded n = vcPadded n') : vcPath n = vcPath n' := by
+  unfold vcPadded at h
+  by_cases h1 : n ≤ 1 <;> by_cases h2 : n' ≤ 1
+  · simp [vcPath, h1, h2]
+  · simp only [h1, h2, if_true, if_false] at h
+    have := vcPath_pos n'
+    have : 2 ^ 1 ≤ 2 ^ vcPath n' := Nat.pow_le_pow_right (by omega) this
+    omega
+  · simp only [h1, h2, if_true, if_false] at h
+    have := vcPath_pos n
+    have : 2 ^ 1 ≤ 2 ^ vcPath n := Nat.pow_le_pow_right (by omega) this
+    omega
+  · simp only [h1, h2, if_false] at h
+    rcases Nat.lt_trichotomy (vcPath n) (vcPath n') with hl | he | hg
+    · have := Nat.pow_lt_pow_right (a := 2) (by omega) hl; omega
+    · exact he
+    · have := Nat.pow_lt_pow_right (a := 2) (by omega) hg; omega
+
+/-- position `bitrev k i` of the padded leaf list holds `arr[i]` -/
+theorem vcLeaves_at_rev (arr : List Bytes) (i : Nat) (hi : i < arr.length) :
+    bitrev (vcPath arr.length) i < vcPadded arr.length ∧
+      (vcLeaves arr)[bitrev (vcPath arr.length) i]? = some arr[i] := by
+  have hge := vcPadded_ge arr.length
+  have hlt : i < 2 ^ vcPath arr.length := by
+    by_cases h1 : arr.length ≤ 1
+    · have : i = 0 := by omega
+      subst this
+      exact Nat.two_pow_pos _
+    · simp only [vcPadded, h1, if_false] at hge; omega
+  have hm : bitrev (vcPath arr.length) i < vcPadded arr.length := by
+    by_cases h1 : arr.length ≤ 1
+    · have : i = 0 := by omega
+      subst this
+      simp [vcPadded, vcPath, h1, bitrev]
+    · simp only [vcPadded, h1, if_false]; exact bitrev_lt _ _
+  refine ⟨hm, ?_⟩
+  rw [vcLeaves_get arr _ hm, bitrev_bitrev _ _ hlt]
+  simp [List.getElem?_eq_getElem hi]
+
+theorem vcLeaves_sub (arr arr' : List Bytes) (hnb : ∀ x ∈ arr, x ≠ bottomPre)
+    (h : vcLeaves arr = vcLeaves arr') (i : Nat) (hi : i < arr.length) : arr'[i]? = some arr[i] := by
+  have hp : vcPadded arr.length = vcPadded arr'.length := by
+    rw [← vcLeaves_length, ← vcLeaves_length, h]
+  have hk := vcPath_eq_of_padded _ _ hp
+  obtain ⟨hm, hget⟩ := vcLeaves_at_rev arr i hi
+  rw [h, vcLeaves_get arr' _ (hp ▸ hm), ← hk] at hget
+  have hlt : i < 2 ^ vcPath arr.length := by
+    by_cases h1 : arr.length ≤ 1
+    · have : i = 0 := by omega
+      subst this
+      exact Nat.two_pow_pos _
+    · have hge := vcPadded_ge arr.length
+      simp only [vcPadded, h1, if_false] at hge; omega
+  rw [bitrev_bitrev _ _ hlt] at hget
+  cases he : arr'[i]? with
+  | none =>
+    rw [he] at hget
+    simp only [Option.some.injEq] at hget
+    exact absurd hget.symm (hnb _ (List.getElem_mem hi))
+  | some x =>
+    rw [he] at hget
+    simp only [Option.some.injEq] at hget
+    rw [hget]
+
+/-- the bit-reversal padding is injective on arrays without the bottom leaf -/
+theorem vcLeaves_inj (arr arr' : List Bytes) (hnb : ∀ x ∈ arr, x ≠ bottomPre) (hnb' : ∀ x ∈ arr', x ≠ bottomPre)
+    (h : vcLeaves arr = vcLeaves arr') : arr = arr' := by
+  apply List.ext_getElem?
+  intro i
+  by_cases h1 : i < arr.length
+  · rw [vcLeaves_sub arr arr' hnb h i h1, List.getElem?_eq_getElem h1]
+  · by_cases h2 : i < arr'.length
+    · rw [vcLeaves_sub arr' arr hnb' h.symm i h2, List.getElem?_eq_getElem h2]
+    · rw [List.getElem?_eq_none (by omega), List.getElem?_eq_none (by omega)]
+
+theorem mem_vcLeaves (arr : List Bytes) (x : Bytes) (hx : x ∈ vcLeaves arr) : x ∈ arr ∨ x = bottomPre := by
+  simp only [vcLeaves, List.mem_map, List.mem_range] at hx
+  obtain ⟨pos, _, rfl⟩ := hx
+  split
+  · rename_i e he; exact Or.inl (List.mem_of_getElem? he)
+  · exact Or.inr rfl
+
+theorem rootOf_buildVC (c : Cfg) (n : Nat) (arr : List Bytes) :
+    Model.Commitments.rootOf n (buildVC c arr) = Model.Commitments.rootOf n (build c (vcLeaves arr)) := by
+  unfold buildVC
+  cases build c (vcLeaves arr) with
+  | error e => rfl
+  | ok t => simp [Model.Commitments.rootOf, Tree.root]
+
+/-- **the vector-commitment root binds the array** (arrays without the bottom leaf "MB") -/
+theorem rootOf_buildVC_inj (c : Cfg) (hf : c.fixedOff = true) (hvld : c.hashValid = true)
+    (hlen : ∀ x, (c.H x).length = c.d) (hnz : ∀ x, c.H x ≠ zeros c.d)
+    (arr arr' : List Bytes) (hs : (vcLeaves arr).length ≤ 2 ^ 63) (hs' : (vcLeaves arr').length ≤ 2 ^ 63)
+    (hup : ∀ t, build c (vcLeaves arr) = .ok t → ∀ L ∈ t.levels, UniquePre c L)
+    (hup' : ∀ t, build c (vcLeaves arr') = .ok t → ∀ L ∈ t.levels, UniquePre c L)
+    (hsepA : ∀ e ∈ arr, ¬ nodeTag <+: e) (hsepA' : ∀ e ∈ arr', ¬ nodeTag <+: e)
+    (hnb : ∀ x ∈ arr, x ≠ bottomPre) (hnb' : ∀ x ∈ arr', x ≠ bottomPre)
+    (r : Bytes) (h : Model.Commitments.rootOf c.d (buildVC c arr) = .ok r)
+    (h' : Model.Commitments.rootOf c.d (buildVC c arr') = .ok r) : arr = arr' := by
+  rw [rootOf_buildVC] at h h'
+  have hbot : ¬ nodeTag <+: bottomPre := by decide
+  have hsep : ∀ (a : List Bytes), (∀ e ∈ a, ¬ nodeTag <+: e) → ∀ e ∈ vcLeaves a, ¬ nodeTag <+: e := by
+    intro a ha e he
+    rcases mem_vcLeaves a e he with h1 | h1
+    · exact ha e h1
+    · rw [h1]; exact hbot
+  exact vcLeaves_inj arr arr' hnb hnb'
+    (rootOf_build_inj c hf hvld hlen hnz _ _ hs hs' hup hup' (hsep arr hsepA) (hsep arr' hsepA') r h h')
+
 end Lemmas.Commitments
